@@ -263,9 +263,10 @@ Definition runs_plan_deferred (p : pln) : bool :=
   match pl_deferred p with Some k => negb (is_completed (ck_st k)) | None => false end.
 (* BlockBypassChecks: unless nil or Failed *)
 Definition runs_block_bypass (b : blk) : bool := is_some (bk_bypass b) && negb (chk_is Failed (bk_bypass b)).
-(* BlockPreChecks: unless (no pre and no cont) or pre Completed *)
+(* BlockPreChecks (as of /repo 0c944e8): unless (no pre and no cont), or pre Completed and (no cont or cont Completed) *)
 Definition runs_block_pre (b : blk) : bool :=
-  negb ((negb (is_some (bk_pre b)) && negb (is_some (bk_cont b))) || chk_is Completed (bk_pre b)).
+  negb ((negb (is_some (bk_pre b)) && negb (is_some (bk_cont b)))
+        || (chk_is Completed (bk_pre b) && (negb (is_some (bk_cont b)) || chk_is Completed (bk_cont b)))).
 (* ExecuteSequences skips Completed and Failed sequences (Failed ones count as failures) *)
 Definition seq_skipped (s : seq) : bool := status_eqb (sq_st s) Completed || status_eqb (sq_st s) Failed.
 (* BlockPostChecks / BlockDeferredChecks: unless checksCompleted (nil counts as completed) *)
